@@ -42,7 +42,21 @@ TraceLabels ==
            /\ e.b2d = [pos |-> BinaryToDoc("pos"), neg |-> BinaryToDoc("neg")]
            /\ e.roundtrip_ok>>}))
 
-Next == TraceFraudNew \/ TraceLabels
+(* NaN among the scores (the token NaNV): a NaN is not itself outside [0,1], but it must not hide  *)
+(* a score that is; without any NaN the iff of the property applies                               *)
+NaNV == -99
+TraceFraudNaN ==
+  /\ IsEvent("fraud_nan")
+  /\ LET e == Log[l]
+         vals == {e.g[i] : i \in DOMAIN e.g} \cup {e.f[i] : i \in DOMAIN e.f}
+         outside == \E v \in vals : v # NaNV /\ (v < 0 \/ v > Mid + 1)
+         hasnan == NaNV \in vals
+     IN Report(e, Failing({
+          <<"C19.no_other_exception", e.exc \in {"", "ValueError"}>>,
+          <<"C19.valueerror_iff_outside_unit_interval",
+               (outside => e.exc = "ValueError") /\ ((~outside /\ ~hasnan) => e.exc = "")>>}))
+
+Next == TraceFraudNew \/ TraceLabels \/ TraceFraudNaN
 Spec == Init /\ [][Next]_vars
 AllConsumed == TLCGet("stats").diameter - 1 = Len(Log)
 =============================================================================
